@@ -106,7 +106,8 @@ def cases(tier, seed):
                 continue
             car = rt.rename(cm.CARRIER4, 1, nm)
             yield ('M', car)
-            for t in (('REQUIRES', nm, 'Dc'), ('OR', ('NOT', 'Dc', None), nm), ('AND', nm, ('OR', 'Dc', 'Ad')), ('EXCLUDES', 'Ad', nm)):
+            for t in (('REQUIRES', nm, 'Dc'), ('OR', ('NOT', 'Dc', None), nm), ('AND', nm, ('OR', 'Dc', 'Ad')), ('EXCLUDES', 'Ad', nm),
+                      ('OR', nm, 'Dc'), ('XOR', nm, 'Dc'), ('IMPLIES', ('NOT', 'Ad', None), nm)):
                 yield ('M', (car[0], (('c1', t),)))
     reps = [('REQUIRES', 'x', 'y'), ('EXCLUDES', 'x', 'y'), ('AND', ('IMPLIES', 'x', 'y'), ('IMPLIES', 'y', 'z')),
             ('OR', 'x', ('AND', 'y', 'z')), 'x', ('NOT', 'x', None), ('XOR', 'x', 'z'),
